@@ -260,6 +260,15 @@ def run(tier, seed):
         "exhaustive": bool(r.finished),
         "detail": cov,
     }
+    if tier == "thorough":
+        # extension beyond the listed properties (DESIGN.md 10.7): what the same events make the node RUN (tasks, validator
+        # controller, metadata loop, node start). Observations only: it never contributes a verdict to C11.
+        try:
+            import lifecycle
+            coverage["detail"]["lifecycle_extension"] = lifecycle.run_part(tier, seed, log)
+        except Exception as e:  # noqa: BLE001 - the extension must not break the property's check
+            coverage["detail"]["lifecycle_extension"] = {"error": str(e)[:500]}
+            log("[C11] lifecycle extension did not complete: %s" % str(e)[:200])
     vlib.write_evidence(PROP, tier, seed, "model_checking", coverage, time.time() - t0, [
         "the registration rules are the spec's Expected (fold of Rule); the monitor compares the REAL database with it",
         "exhaustive results hold for the stated constants (2 owners, 2 validators, operator ids 1..5, sequences up to MaxEvents after the setup block, all batchings)",
